@@ -197,6 +197,11 @@ pub struct CodegenContext {
 
     next_macro_scope_id: usize,
 
+    /// The files that are currently being emitted because of (nested) imports, used to detect import cycles
+    import_stack: Vec<PathBuf>,
+    /// The number of macro invocations that are currently being expanded, used to detect runaway recursion
+    macro_depth: usize,
+
     test_elements: Vec<TestElement>,
 
     source_map: SourceMap,
@@ -244,6 +249,8 @@ impl CodegenContext {
             current_scope: IdentifierPath::empty(),
             current_scope_nx: SymbolIndex::new(0),
             next_macro_scope_id: 0,
+            import_stack: vec![],
+            macro_depth: 0,
             test_elements: vec![],
             source_map: SourceMap::default(),
         }
@@ -777,6 +784,17 @@ impl CodegenContext {
                 if let Some(imported_file) = self.tree.try_get_file(resolved_path) {
                     let imported_file_tokens = imported_file.tokens.clone();
 
+                    // A file that (indirectly) imports itself would be emitted forever
+                    if *resolved_path == self.tree.main_file || self.import_stack.contains(resolved_path) {
+                        return Err(Diagnostic::error()
+                            .with_message(format!(
+                                "recursive import of '{}'",
+                                resolved_path.to_string_lossy()
+                            ))
+                            .with_labels(vec![filename.span().to_label()])
+                            .into());
+                    }
+
                     // Make the filename a definition by itself, allowing the user to follow the definition
                     let def = self
                         .analysis
@@ -792,13 +810,16 @@ impl CodegenContext {
                         span: filename.span(),
                     });
 
-                    self.with_scope(import_scope, block.as_ref(), |s| {
+                    self.import_stack.push(resolved_path.clone());
+                    let import_result = self.with_scope(import_scope, block.as_ref(), |s| {
                         if let Some(block) = block {
                             s.emit_tokens(&block.inner)?;
                         }
 
                         s.emit_tokens(&imported_file_tokens)
-                    })?;
+                    });
+                    self.import_stack.pop();
+                    import_result?;
 
                     if let Some(import_nx) =
                         self.symbols.try_index(self.current_scope_nx, import_scope)
